@@ -32,7 +32,7 @@ def plan(tier, seed):
         for c0 in range(4):
             for c1 in range(8):
                 for c2 in range(8):
-                    cases.append({"mode": "dfs", "cfg": cfg, "prefix": [0, c0, c1, c2], "depth": d + 1})
+                    cases.append({"mode": "dfs", "cfg": cfg, "prefix": [0, c0, c1, c2], "depth": d + 1, "tier": tier})
     nwalk = 8000 if tier == "quick" else 150000
     for i in range(nwalk):
         cases.append({"mode": "walk", "seed": seed, "idx": i, "cfg": {"n": 1 + i % 3, "async": i % 4 == 3, "foreign": i % 5 == 0, "hc": i % 3 == 1}, "len": 10 + i % 5})
@@ -54,7 +54,7 @@ class Run:
         self.refs = {}  # i -> customer_order_ref
         self.objs = {}  # i -> order object placed in the first world
         self.placed = 0
-        self.budget = {"fill": 2, "lapse": 1, "req": 2, "snap": 3, "stale": 1, "restart": 1}
+        self.budget = {"fill": 2, "lapse": 1, "req": 2, "snap": 3, "stale": 1, "restart": 1, "exch": 2}
         self.saved = None
         self.log = []
         self.restarted = False
@@ -86,6 +86,9 @@ class Run:
             ev.append(("place", self.placed))
         for k in range(min(2, len(self.w.executor.queue))):
             ev.append(("resp", k))
+            if self.budget["exch"] > 0 and not getattr(self.w.executor.queue[k][1][0], "_vf_exchanged", False):
+                # the exchange processes the request now; its response reaches flumine later (a stream update may overtake it)
+                ev.append(("exch", k))
         for i in range(self.placed):
             b = self.bet_of(i)
             if b is not None and b["sizeRemaining"] > 0:
@@ -124,6 +127,9 @@ class Run:
                 m.place_order(o)
             elif k == "resp":
                 self.w.executor.run(e[1])
+            elif k == "exch":
+                self.budget["exch"] -= 1
+                self.w.exchange_process(e[1])
             elif k == "fill":
                 b = self.bet_of(e[1])
                 self.ex.fill(b["betId"], round(b["sizeRemaining"] * e[2], 2))
@@ -333,7 +339,7 @@ def walk(case, observe=None):
 def run(case):
     out = O.Out(PROPERTY)
     if case["mode"] == "dfs":
-        explore(case["cfg"], case["prefix"], case["depth"], out, [400])
+        explore(case["cfg"], case["prefix"], case["depth"], out, [4000 if case.get("tier") == "thorough" else 1500])
     elif case["mode"] == "events":
         run_events(case["cfg"], case["events"], out)
     else:
